@@ -253,21 +253,44 @@ def run_case(case, drv):
         if edited:
             Ex = F.renumber(F.extract_named(Mobj, ycodes))
             d_e = drv.call("fa.diff", A=Ex, B=B)
-            for opname, f in (("is_equivalent_to(edited minimal)", lambda: Mobj.is_equivalent_to(fb)),
-                              ("is_equivalent_to(edited minimal).rev", lambda: fb.is_equivalent_to(Mobj))):
+            # minimize() names its states with ';'-joins: a second minimisation of the edited object falls in the
+            # scope of the naming defect KF-C02-1; it is attributed to it exactly when the same structure under
+            # clean names (a fresh copy with integer states) gets every verdict right
+            scope_m = list(scope)
+            if any(";" in str(q.value) or str(q.value) in ("", "TRASH") for q in Mobj.states) and "unclean_names" not in scope_m:
+                scope_m.append("unclean_names")
+            st_c, Cobj = outcome(lambda: F.build_from_extract(Ex, list(ycodes.values)))
+            clean_ok = None
+
+            def clean_verdicts_right():
+                if st_c != "ok":
+                    return False
+                c2 = F.build_from_extract(Ex, list(ycodes.values))
+                return (outcome(lambda: Cobj.is_equivalent_to(fb)) == ("ok", d_e["equiv"])
+                        and outcome(lambda: fb.is_equivalent_to(Cobj)) == ("ok", d_e["equiv"])
+                        and outcome(lambda: Cobj.is_equivalent_to(c2)) == ("ok", True))
+            checks = [("is_equivalent_to", lambda: Mobj.is_equivalent_to(fb), d_e["equiv"], "edited minimal automaton vs second operand"),
+                      ("is_equivalent_to.rev", lambda: fb.is_equivalent_to(Mobj), d_e["equiv"], "second operand vs edited minimal automaton")]
+            if st_c == "ok":
+                checks.append(("is_equivalent_to", lambda: Mobj.is_equivalent_to(Cobj), True,
+                               "edited minimal automaton vs a fresh copy of itself"))
+            for opname, f, want_, what_ in checks:
                 got = outcome(f)
                 res.evals += 1
-                if got != ("ok", d_e["equiv"]):
-                    res.violation(opname, "verdict differs from language equality for a minimised automaton edited in place",
-                                  detail={"impl": got, "languages_equal": d_e["equiv"], "word": d_e["word"]}, scope=scope)
-            # and against a freshly built copy of itself
-            st_c, Cobj = outcome(lambda: F.build_from_extract(Ex, list(ycodes.values)))
-            if st_c == "ok":
-                got = outcome(lambda: Mobj.is_equivalent_to(Cobj))
+                if got != ("ok", want_):
+                    if clean_ok is None:
+                        clean_ok = clean_verdicts_right()
+                    res.violation(opname, "verdict differs from language equality (%s)" % what_,
+                                  detail={"impl": got, "languages_equal": want_, "word": d_e["word"],
+                                          "same_structure_under_clean_names_is_right": clean_ok},
+                                  scope=(scope_m if clean_ok else scope), model_agrees=bool(clean_ok))
+            if st_c == "ok" and clean_ok is None:
+                # the clean copy itself must always be judged correctly
+                got = outcome(lambda: Cobj.is_equivalent_to(fb))
                 res.evals += 1
-                if got != ("ok", True):
-                    res.violation("is_equivalent_to(edited minimal)", "an edited automaton is not equivalent to a fresh copy of itself",
-                                  detail={"impl": got}, scope=scope)
+                if got != ("ok", d_e["equiv"]):
+                    res.violation("is_equivalent_to", "verdict differs from language equality (fresh copy of the edited automaton)",
+                                  detail={"impl": got, "languages_equal": d_e["equiv"]}, scope=[])
             res.tag("edited_minimal")
     if truth["equiv"] and mins[0] is not None and mins[1] is not None:
         res.evals += 1
